@@ -47,6 +47,35 @@ CHECKS["C10"] = dict(
           "recorded hazard regions (decimal positions outside int64, INT64_MIN start) are listed in known_findings.json."),
     technique="Lean 4 proof over a hand model + differential correspondence (exhaustive short strings x lattice)")
 
+CHECKS["C13"] = dict(
+    category="proof",
+    text=("Lean 4 model of the scanner as per-chunk maximal munch over the 28 rules of tokenizer.lex with start conditions, "
+          "chunking as tokenizer_buf, reassembly as Parser::next_token and the line readers; theorems (BlocV.Proofs.C13): for "
+          "EVERY text and EVERY fragmentation in which each chunk but the last ends after a newline the chunked token stream "
+          "equals the whole-text stream (lex_line_aligned, pop_line_aligned, fragmentation_independent), lineReader max yields "
+          "such a fragmentation iff no line exceeds max (lineReader_aligned), CRLF = LF, hence layout independence for texts "
+          "with lines <= 1023 bytes and no NUL; the full property is FALSE on this tree and its negation is proved at "
+          "concrete witnesses (recorded known findings). Tied to /repo by comparing Parser::pop() token streams under every "
+          "single split, multi-splits, fixed sizes and the library's own reader, and by comparing the rule list with tokenizer.lex."),
+    design_ref="DESIGN.md §6 C13, notes/NOTES-C13.md",
+    note=("Trusted: Lean kernel; the flex-generated automaton (lex._tokenizer.c) is compared with the model on token streams, "
+          "not translated; apps/read_file.cpp modelled by reading only (same discipline as StringReader)."),
+    technique="Lean 4 proof (chunked lexer = whole lexer on line-aligned fragmentations) + token-stream correspondence")
+
+CHECKS["C18"] = dict(
+    category="proof",
+    text=("csv and utf8 halves by Lean 4 proof: csv_roundtrip (deserialize(serialize row) = row for every row other than the single "
+          "empty field, every field content, every separator != encapsulator) and csv_linewise; utf8: decoding the RFC 3629 "
+          "encoding of any list of non-zero scalars gives that list, count/at/substr/insert/remove/string agree with the list "
+          "functions, utf8_args_total characterises the only out-of-bounds access (at beyond the end: recorded finding); models "
+          "are transcriptions of csvparser.cpp / utf8helper.cpp tied by an exhaustive small-alphabet differential run of the "
+          "real classes (harness/modprobe.cpp, ASan+UBSan). The file and sqlite3 halves are NOT claimed by this check "
+          "(OS / SQLite behaviour; see DESIGN.md)."),
+    design_ref="DESIGN.md §6 C18, notes/NOTES-C18.md",
+    note=("Trusted: Lean kernel; correspondence tested (exhaustive over rows <= 3 fields x <= 3 bytes over {sep, enc, space, LF, CR, a}; "
+          "byte strings <= 3 over a boundary alphabet); charmap tables (upper/lower/normalisation) out of scope; file/sqlite3 not covered."),
+    technique="Lean 4 proof (round trip / refinement to list functions) + exhaustive differential correspondence")
+
 NOT_YET = {}
 
 ALL = ["C%02d" % i for i in range(1, 20)]
